@@ -64,6 +64,8 @@ func ribRun(args []string) error {
 	seed := fs.Int64("seed", 1, "seed")
 	hookFirst := fs.Bool("hook-first", true, "register the post-change hook before creating the other instances")
 	reuse := fs.Int("reuse", 0, "percentage of id reuse in random sequences")
+	bad := fs.Int("bad", -1, "percentage of malformed operations in random sequences (-1 = default)")
+	small := fs.Int("small", 0, "percentage of random sequences over the small, state-aware alphabet")
 	fs.Parse(args)
 	w, err := os.Create(*out)
 	if err != nil {
@@ -85,7 +87,13 @@ func ribRun(args []string) error {
 	rng := rand.New(rand.NewSource(*seed))
 	for i := 0; i < *nrand; i++ {
 		c := ribdrv.DefaultRandomCfg()
+		if rng.Intn(100) < *small {
+			c = ribdrv.SmallRandomCfg()
+		}
 		c.Len = *rlen
+		if *bad >= 0 {
+			c.BadPct = *bad
+		}
 		c.ReusePct = *reuse
 		if err := rn.Run(ribdrv.Random(rng, c)); err != nil {
 			return err
@@ -93,6 +101,6 @@ func ribRun(args []string) error {
 		walks++
 	}
 	rn.Close()
-	fmt.Printf("{\"walks\":%d,\"calls\":%d,\"events\":%d}\n", walks, rn.Calls, sink.N)
+	fmt.Printf("{\"walks\":%d,\"calls\":%d,\"events\":%d,\"panics\":%d}\n", walks, rn.Calls, sink.N, rn.Panics)
 	return nil
 }
